@@ -17,6 +17,8 @@ pub struct RichOpts {
     pub xfmt: bool,
     /// stop after the Issue event (C05 / C12 / C13 volume runs)
     pub only_issue: bool,
+    /// probability of planting a reserved member name somewhere in the claims (C13)
+    pub plant: f64,
 }
 
 pub const ISSUER_KEYS: [(&str, &str); 3] = [("K1", "ES256"), ("KE1", "EdDSA"), ("S1", "HS256")];
@@ -33,7 +35,10 @@ pub fn run(ctx: &mut Ctx, o: &RichOpts) {
             i => Some(HOLDER_KEYS[i - 1]),
         };
         let decoy = r.gen_bool(0.5);
-        let claims = rclaims(&mut r, &o.tree, now());
+        let mut claims = rclaims(&mut r, &o.tree, now());
+        if o.plant > 0.0 && r.gen_bool(o.plant) {
+            plant_reserved(&mut claims, &mut r);
+        }
         let strat = rstrategy(&mut r, &claims, o.bad_paths);
         let mut issuer = new_issuer(key, alg);
         let issued = issue(ctx, &mut issuer, &IssueArgs { inst: "I1", key, alg, claims: &claims, strat: &strat, hk: hk.map(|h| h.0), decoy, fmt });
